@@ -1,9 +1,10 @@
 SPECIFICATION Spec
 CONSTANTS
   MaxN = 4
-  BoxStride = 5
+  BoxStride = 7
   CatStride = 5
   PairStride = 20
+  SameStride = 10
   ShapeFrom = "named dims"
 CONSTRAINT Export
 INVARIANT ImplRefinesReq
